@@ -100,10 +100,28 @@ def run(prog, rep):
     # extend_context_with_wild_cards is two loops over its arguments and nothing else
     f = prog.lib_fn("evaluation::eval_context::EvalContext::extend_context_with_wild_cards")
     if f is not None:
-        s = terms.Engine(prog, inline=False).summary(f)
-        outside = [x for x in s.sites if x.kind in ("mcall", "call", "assign", "assignop") and not x.loops and x.name not in ("iter", "into_iter")]
-        rep.check(not outside, "C10-R3", "extend/only-loops", f"{f.file}:{f.line}", "no effect outside the two loops (empty context => no change)",
-                  f"operation `{outside[0].short()}` outside the loops at line {outside[0].line()}" if outside else "")
+        import effects
+        s = terms.Engine(prog, inline=True, hooks=E.Hooks(["evaluation::eval_context::"])).summary(f)
+        pn = f.param_names()
+        srcs = [("param", x) for x in pn[1:]]
+
+        def rooted(t):
+            t = terms.strip_iter_adapters(t) if t is not None else None
+            while isinstance(t, tuple) and t and t[0] == "call" and len(t[2]) == 1 and t[1].rsplit("::", 1)[-1] in ("iter", "into_iter", "clone", "keys", "values"):
+                t = t[2][0]
+            return t in srcs
+        outside = []
+        out = s.mut_out.get(pn[0])
+        for it in (effects.trace(out, s)[1:] if out is not None else []):
+            if it[0] == "loop" and rooted(it[2]):
+                continue
+            if it[0] == "op" and it[1] == "extend" and it[2]:
+                pr = effects.as_pairs(it[2][0])
+                if pr is not None and rooted(pr[0]):
+                    continue
+            outside.append(it)
+        rep.check(not outside, "C10-R3", "extend/only-loops", f"{f.file}:{f.line}", "every effect on the context is per element of one of the two argument maps (empty context => no change)",
+                  f"the context is also changed by `{outside[0][1] if outside and outside[0][0] == 'op' else (outside[0][0] if outside else '')}` independently of the argument maps")
     rep.floor("C10-R3", 3)
 
 
